@@ -8,6 +8,8 @@ import refproto as rp
 import simnet
 from refserver import RefServer
 
+EXTRA_PROPS = ['C11Wire']
+
 RULE = ("server packet histories (length 1..400, crossing the 50-read/300-write batch limits) "
         "interleaving keep-alives (ids at every VarInt/Long boundary), position-and-look, unknown-id "
         "frames of arbitrary content and known-but-unhandled packets, optionally ending in a disconnect "
@@ -17,6 +19,8 @@ RULE = ("server packet histories (length 1..400, crossing the 50-read/300-write 
 
 KA_IDS = [0, 1, 127, 128, 255, 16383, 16384, 2 ** 21 - 1, 2 ** 21, 2 ** 28 - 1, 2 ** 28, 2 ** 31 - 1]
 KA_LONG = [2 ** 31, 2 ** 32 - 1, 2 ** 35, 2 ** 62, 2 ** 63 - 1]
+# VarInt ids with bit 31 set: what a Java server writes for a negative int (5 bytes)
+KA_NEG32 = [2 ** 31, 2 ** 31 + 77, 2 ** 32 - 2, 2 ** 32 - 1]
 
 
 def run(ctx):
@@ -34,6 +38,7 @@ def run(ctx):
     boundary = [v for v in (338, 339, 340, 706, 707, 717, 718, 106, 107) if v in others]
     versions = list(rp.RELEASES) + sorted(set(rot + boundary))
     lines, impl = [], []
+    wlines, wimpl = [], []
 
     class Buf:
         def __init__(self):
@@ -93,7 +98,7 @@ def run(ctx):
             for _ in range(n):
                 r = rng.random()
                 if r < 0.45:
-                    kid = rng.choice(KA_IDS + (KA_LONG if I['ka_wide'] else []))
+                    kid = rng.choice(KA_IDS + (KA_LONG if I['ka_wide'] else KA_NEG32))
                     evs.append('ka:%d' % kid)
                     script.append(('raw', I['ka_cb'], rc.be(kid, 8) if I['ka_wide'] else rc.varint(kid)))
                 elif r < 0.6:
@@ -150,6 +155,7 @@ def run(ctx):
                 net.run_threads()
                 closed = net.sockets[0].closed_by_client
                 spawned = getattr(conn, 'spawned', False)
+                raw_sent = bytes(net.sockets[0].sent)
             srv = cfg['servers'][0]
             wire = []
             for st, pid, payload, _enc, _comp in srv.frames:
@@ -165,6 +171,32 @@ def run(ctx):
                     wire.append('pe:%d:%d:%d:%d:%d:%d' % (x, y, z, yaw, pitch, payload[32]))
                 else:
                     wire.append('?%d' % pid)
+            # ---- byte level (Model/PlayWire.lean, Props/C11Wire.lean)
+            if end != 'disc-closed' and len(wlines) < ctx.scale(150, 1500):
+                pev = []
+                for (kind_, pid_, body_), e in zip([s_ for s_ in script if s_[0] == 'raw'], evs):
+                    if e.startswith('ka:'):
+                        pev.append(e)
+                    elif e.startswith('pl:'):
+                        f = [int(t) for t in e.split(':')[1:]]
+                        pev.append('pos:%s:%s:%s:%s:%s:%d:%d' % (
+                            struct.pack('>d', f[0]).hex(), struct.pack('>d', f[1]).hex(), struct.pack('>d', f[2]).hex(),
+                            struct.pack('>f', f[3]).hex(), struct.pack('>f', f[4]).hex(), f[5], f[6]))
+                    elif e == 'disc':
+                        pev.append('disc:%s' % '{"text":"bye"}'.encode().hex())
+                    else:        # unknown ids and packets without a reaction: opaque frames
+                        pev.append('unk:%d:%s' % (pid_, body_.hex() or '-'))
+                wlines.append('playwire.run ka=%d:%d:%s pos=%d:%d:%s:%s disc=%d thr=%s capw=300 capr=50 %s' % (
+                    I['ka_cb'], I['ka_sb'], 'L' if I['ka_wide'] else 'V', I['pl_cb'],
+                    I['tc_sb'] if newer else I['pl_sb'], 'T' if newer else 'E', 'D' if I['pl_fields'] >= 8 else '-',
+                    I['disc'], 64 if comp else 'none', ' '.join(pev)))
+                srv_bytes = b''.join(rc.frame(rc.varint(pid_) + body_, 64 if comp else None)
+                                     for kind_, pid_, body_ in [s_ for s_ in script if s_[0] == 'raw'])
+                p_ = 0
+                for _ in range(2):            # handshake and login start precede the play frames
+                    n_, q_ = rc.read_varint(raw_sent, p_)
+                    p_ = q_ + n_
+                wimpl.append((srv_bytes, raw_sent[p_:]))
             pads = 3 + (1 if comp else 0)
             nplay = len([p for p in seen]) - (1 + (1 if comp else 0))
             got = 'ok wire=%s delivered=%d spawned=%d closed=%d exit=%d errors=%d' % (
@@ -214,6 +246,22 @@ def run(ctx):
     for line, mo, g in zip(lines, ctx.driver.ask(lines), impl):
         if mo != g:
             ctx.disagree('play loop', line[:300], mo[:300], g[:300])
+    nw = nskip = 0
+    for line, mo, (srv_b, cli_b) in zip(wlines, ctx.driver.ask(wlines), wimpl):
+        if mo == 'skip:deflate':
+            nskip += 1
+            continue
+        ctx.case(('playwire', line))
+        f = dict(x.split('=', 1) for x in mo.split()[1:]) if mo.startswith('ok ') else {}
+        want = 'srv=%s cli=%s' % (srv_b.hex() or '-', cli_b.hex() or '-')
+        got_m = 'srv=%s cli=%s' % (f.get('srv'), f.get('cli'))
+        nw += 1
+        if got_m != want:
+            k = next((i for i, (a, b) in enumerate(zip(got_m, want)) if a != b), min(len(got_m), len(want)))
+            ctx.disagree('play-state bytes (server stream as framed by refcodec; raw bytes the client sent)', line[:300],
+                         got_m[max(0, k - 40):k + 60], want[max(0, k - 40):k + 60])
+    ctx.extra['play_wire_runs_compared'] = nw
+    ctx.extra['play_wire_runs_skipped_deflate'] = nskip
 
 
 def replay(ctx, rp_):
